@@ -36,7 +36,7 @@ def shard_env():
     return env
 
 
-def run_shards(prop, tier, seed, nshards, timeout, extra=None):
+def run_shards(prop, tier, seed, nshards, timeout, extra=None, soft=None):
     """Start nshards subprocesses of vt.shard; returns list of (result|None, why)."""
     scratch = tempfile.mkdtemp(prefix="vt-%s-" % prop)
     procs = []
@@ -47,23 +47,44 @@ def run_shards(prop, tier, seed, nshards, timeout, extra=None):
             cmd += extra
         lg = open(os.path.join(scratch, "shard%d.log" % i), "w")
         procs.append((i, outp, lg, subprocess.Popen(cmd, cwd=VERIF, env=shard_env(), stdout=lg, stderr=subprocess.STDOUT)))
-    results = []
-    deadline = time.time() + timeout
-    for i, outp, lg, p in procs:
-        try:
-            p.wait(timeout=max(1, deadline - time.time()))
-        except subprocess.TimeoutExpired:
-            p.kill()
-            p.wait()
-            results.append((partial_result(outp), "shard %d hit the %ds watchdog" % (i, timeout)))
+    results = {}
+    t0 = time.time()
+    deadline = t0 + timeout
+    pending = {i: (outp, lg, p) for i, outp, lg, p in procs}
+    witnessed = False
+    while pending:
+        for i in list(pending):
+            outp, lg, p = pending[i]
+            if p.poll() is None:
+                continue
+            del pending[i]
             lg.close()
-            continue
-        lg.close()
-        if p.returncode != 0 or not os.path.exists(outp):
-            tail = open(os.path.join(scratch, "shard%d.log" % i)).read()[-1500:]
-            results.append((partial_result(outp), "shard %d died (rc=%s): %s" % (i, p.returncode, tail)))
-            continue
-        results.append((jload_file(outp), None))
+            if p.returncode != 0 or not os.path.exists(outp):
+                tail = open(os.path.join(scratch, "shard%d.log" % i)).read()[-1500:]
+                results[i] = (partial_result(outp), "shard %d died (rc=%s): %s" % (i, p.returncode, tail))
+                continue
+            results[i] = (jload_file(outp), None)
+            if results[i][0].get("violations"):
+                witnessed = True
+        if not pending:
+            break
+        now = time.time()
+        if not witnessed and any(os.path.exists(pending[i][0] + ".partial") for i in pending):
+            witnessed = True
+        # the watchdog guards against hangs on a healthy tree and is generous; once a violation has been witnessed
+        # (a damaged index can make a library traversal loop for ever) the stragglers get a short grace period only
+        if now > deadline or (witnessed and soft and now > t0 + soft):
+            for i in list(pending):
+                outp, lg, p = pending.pop(i)
+                p.kill()
+                p.wait()
+                lg.close()
+                why = "shard %d hit the %ds watchdog" % (i, timeout) if now > deadline else \
+                    "shard %d stopped %ds after the start: a violation had already been witnessed" % (i, int(now - t0))
+                results[i] = (partial_result(outp), why)
+            break
+        time.sleep(0.25)
+    results = [results[i] for i in sorted(results)]
     shutil.rmtree(scratch, ignore_errors=True)
     return results
 
@@ -142,7 +163,8 @@ def main(argv=None):
         return 0
     tier = spec[a.tier]
     nshards = a.shards or tier.get("shards", NCPU)
-    results = run_shards(prop, a.tier, seed, nshards, int(os.environ.get("VERIF_WATCHDOG") or tier.get("watchdog", 900)))
+    results = run_shards(prop, a.tier, seed, nshards, int(os.environ.get("VERIF_WATCHDOG") or tier.get("watchdog", 900)),
+                         soft=2 * tier.get("time_cap", 300) + 60)
     tot = merge(results)
     # thorough tier: the monitors also ride on the repository's own tests
     from .engines import ride as R
